@@ -245,7 +245,20 @@ impl<'a> Ctx<'a> {
         };
         let agree = match (&a, &b) {
             (Ok(x), Ok(y)) => x.same(y),
-            (Err(_), Err(_)) => true,
+            // two refusals agree when they are the same refusal: once either route has reached
+            // the conversion stage (an "unexpected item" error), kind and texts must be equal
+            (Err(x), Err(y)) => {
+                // (untagged entry points only: there the Value route is coset's public
+                // `from_cbor_value` itself; for the tagged ones the harness supplies the tag check
+                // and its wording)
+                if !ep.name.contains("tagged")
+                    && (err_class(x) == "UnexpectedItem" || err_class(y) == "UnexpectedItem")
+                {
+                    format!("{:?}", x) == format!("{:?}", y)
+                } else {
+                    true
+                }
+            }
             _ => false,
         };
         if !agree {
@@ -467,6 +480,38 @@ impl Engine for C13 {
                 if out.len() <= max_len(tier) && out != msg {
                     msg = out;
                     t.set_meta("encoding", "non-canonical");
+                }
+            }
+        }
+        // 1 small message in 24 carries one of its strings as a chunk of a chunked string
+        // (`5f 5f 41 aa ff ff`): not well-formed by RFC 8949 3.2.3, yet read by CBOR layers that
+        // concatenate chunks - whatever coset makes of it, both API layers must make the same
+        if t.meta("size").is_none() && rng.chance(1, 24) {
+            if let Ok(item) = refcbor::read_exact(&msg) {
+                let strings: Vec<(usize, usize, u8)> = refcbor::paths(&item)
+                    .iter()
+                    .filter_map(|p| refcbor::get(&item, p))
+                    .filter_map(|n| match &n.kind {
+                        Kind::Bytes(_) if !n.indefinite && n.end > n.start => {
+                            Some((n.start, n.end, 0x5fu8))
+                        }
+                        Kind::Text(_) if !n.indefinite && n.end > n.start => {
+                            Some((n.start, n.end, 0x7fu8))
+                        }
+                        _ => None,
+                    })
+                    .collect();
+                if !strings.is_empty() {
+                    let (a, b, open) = strings[rng.below(strings.len())];
+                    let mut out = msg[..a].to_vec();
+                    out.extend([open, open]);
+                    out.extend_from_slice(&msg[a..b]);
+                    out.extend([0xff, 0xff]);
+                    out.extend_from_slice(&msg[b..]);
+                    if refcbor::read_exact(&out).is_ok() {
+                        msg = out;
+                        t.set_meta("encoding", "chunk-in-chunk");
+                    }
                 }
             }
         }
